@@ -261,6 +261,7 @@ class Judge:
         self.evaluations += 1
         if case_id is not None:
             self.nontrivial.add(case_id)
+        key = key.replace(" ", "_")             # keys are single tokens (they appear on the VIOLATION line)
         if not (key.startswith(self.pid + "|") and key.count("|") == 3):
             raise MachineryError("malformed finding key (a part contains '|'): %r" % key)
         self.failures.setdefault(key, []).append(detail)
